@@ -90,6 +90,10 @@ extern "C" int LLVMFuzzerTestOneInput(const uint8_t* data, size_t size)
   if (o1 & 8)  { a.push_back("--language"); a.push_back((o1 & 16) ? "cz" : "fr"); }
   if (o1 & 32) { a.push_back("--encoding"); a.push_back((o1 & 64) ? "cp-1250" : "iso-8859-2"); }
   if (o1 & 128){ a.push_back("--iterations"); a.push_back("1"); }
+  // combinations of bits select the rarely used options
+  if ((o1 & 0x28) == 0x28) { a.push_back("--obs"); a.push_back("/dev/null"); }
+  if ((o1 & 0x90) == 0x90) { a.push_back("--ellipsoid"); a.push_back("wgs84"); a.push_back("--latitude"); a.push_back("50"); }
+  if ((o0 & 0x0C) == 0x0C) { a.push_back("--verbose"); a.push_back("yes"); }
   std::vector<char*> argv;
   for (auto& s : a) argv.push_back(const_cast<char*>(s.c_str()));
   argv.push_back(nullptr);
